@@ -29,13 +29,15 @@ STATUSES = [100, 101, 101, 101, 101, 200, 204, 300, 304, 400, 401, 403, 404, 426
 UPGRADE = [("websocket", True), ("WebSocket", True), ("websocket, foo", True), ("foo,websocket", True), ("  websocket  ", True),
            ("h2c", False), ("websockets", False), ("web socket", False), (None, False), ("", False),
            # a continuation line (obsolete line folding) in the middle of the token: never the token "websocket"
-           ("web\r\n socket", False), ("websoc\r\n\tket", False)]
+           ("web\r\n socket", False), ("websoc\r\n\tket", False),
+           # characters that only Unicode *full* case folding maps onto ASCII letters (long s, ligatures): not the token "websocket"
+           ("web\u017focket", False), ("WEB\u017fOCKET", False), ("web\ufb06ocket"[:3] + "socket\u200b", False)]
 CONNECTION = [("Upgrade", True), ("upgrade", True), ("keep-alive, Upgrade", True), ("UPGRADE,keep-alive", True),
               ("close", False), ("keep-alive", False), ("Upgrades", False), (None, False), ("", False),
-              ("Up\r\n grade", False), ("keep-alive, Up\r\n  grade", False)]
+              ("Up\r\n grade", False), ("keep-alive, Up\r\n  grade", False), ("\uff35pgrade", False), ("Upgrad\u212f", False)]
 ACCEPT = ["right", "right", "right", "right", "prev-key", "random-key", "truncated", "extended", "empty", "missing", "case-flipped",
           # the right value with characters mixed in / appended that a lenient base64 decoder would skip
-          "with-dot", "with-dash", "with-space", "quoted", "suffix-after-padding", "doubled", "extra-padding", "with-newline-fold"]
+          "with-dot", "with-dash", "with-space", "quoted", "suffix-after-padding", "doubled", "extra-padding", "with-newline-fold", "long-s-for-s", "kelvin-for-k"]
 
 
 def rand_case(rng, s):
@@ -91,6 +93,10 @@ def build_response(rng, d, key, prev_key):
         v = right + right
     elif a == "extra-padding":
         v = right + "=="
+    elif a == "long-s-for-s":
+        v = right.replace("s", "\u017f").replace("S", "\u017f") if ("s" in right or "S" in right) else right + "\u017f"
+    elif a == "kelvin-for-k":
+        v = right.replace("k", "\u212a").replace("K", "\u212a") if ("k" in right or "K" in right) else right + "\u212a"
     elif a == "with-newline-fold":
         v = right[:10] + "\r\n " + right[10:]
     else:
@@ -106,7 +112,11 @@ def build_response(rng, d, key, prev_key):
         rng.shuffle(hdrs)
     if d.get("location"):
         hdrs.append(f"Location: {d['location']}")
-    return ("\r\n".join(lines + hdrs) + "\r\n\r\n").encode("latin-1")
+    text = "\r\n".join(lines + hdrs) + "\r\n\r\n"
+    try:
+        return text.encode("latin-1")
+    except UnicodeEncodeError:
+        return text.encode("utf-8")
 
 
 def verdict(d):
@@ -125,7 +135,9 @@ def verdict(d):
     cn = d["connection"]
     if cn is None or "\r\n" in cn or "upgrade" not in [t.strip().lower() for t in cn.split(",")]:
         return "reject"
-    if d["accept"] == "case-flipped":
+    if d["accept"] in ("case-flipped", "kelvin-for-k"):
+        # the library compares the accept value caselessly (str.lower() on both sides, which also maps the Kelvin sign to k); whether a
+        # value that differs from the derived one only in case counts as "the value derived from the key" is left unjudged
         return "unjudged"
     if d["accept"] != "right":
         return "reject"
@@ -160,6 +172,11 @@ def run(res, tier, seed, shard, nshards):
         for off in (-1, 0, 1):
             for hdr in ("Upgrade: websocket", "Connection: Upgrade", "Sec-WebSocket-Accept: @ACCEPT@"):
                 jobs.append(("longline", B, off, hdr))
+    # a negative limit allows no redirect at all
+    for L in (0, 1, 2, 5):
+        for N in (-1, -5):
+            for final in ("valid", "404"):
+                jobs.append(("redir", 302, L, N, final))
     jobs.append(("redir-noloc", 302, 1, 3, "valid"))
     jobs.append(("redir-default-limit", 302, 3, None, "valid"))
     jobs.append(("redir-default-limit", 302, 4, None, "valid"))
@@ -247,7 +264,7 @@ def head_case(res, W, rng):
         "connection": rng.choice(CONNECTION)[0],
         "accept": rng.choice(ACCEPT),
         "offered": off,
-        "selected": rng.choice([None, "chat", "v2", "other", "CHAT"]) if off else rng.choice([None, None, None, "chat"]),
+        "selected": rng.choice([None, "chat", "v2", "other", "CHAT", "\u212ahat".replace("\u212a", "c") + "\u200b", "c\u210eat", "\uff56\uff12"]) if off else rng.choice([None, None, None, "chat"]),
         "name_case": rng.random() < 0.3,
         "dup": rng.random() < 0.2,
         "shuffle": rng.random() < 0.3,
@@ -344,7 +361,7 @@ def redirect_case(res, W, rng, j):
             p.on_open = lambda c: c.peer_close()
     net_ = H.make_net(on_conn)
     opts = {} if N is None else {"redirect_limit": N}
-    limit = 3 if N is None else N
+    limit = 3 if N is None else max(0, N)
     kind, exc, w = attempt(W, "ws://start.test/", rng.random() < 0.5, opts)
     res.count("redirect_cases")
     case = {"status": st, "redirects": L, "limit": N, "final": final, "gen": gen}
